@@ -29,7 +29,7 @@ CFGS = {
               ('{"x/y", "x", ".."}', "{1}", 7, 2, "ViewLast", None)],
     "thorough": [('{"a", "A", "b"}', "{1, 2}", 10, 2, "ViewLast2", 150000), ('{"a", "b", "c"}', "{1}", 8, 2, "ViewN", 150000), ('{"a", "b"}', "{1}", 13, 2, "ViewLast2", 150000),
                  ('{"d-1", "b"}', "{1}", 11, 2, "ViewLast", 100000), ('{"a.1", "a_1"}', "{1}", 11, 2, "ViewLast", 100000),
-                 ('{"mu1", "mu2"}', "{1}", 11, 2, "ViewLast", 100000), ('{"x/y", "x", "..", "."}', "{1}", 8, 2, "ViewLast", 100000)],
+                 ('{"mu1", "mu2"}', "{1}", 11, 2, "ViewLast", 100000), ('{"x/y", "x", ".."}', "{1}", 8, 2, "ViewLast", 100000)],
 }
 
 
